@@ -40,7 +40,9 @@ structure Defects where
   /-- `node.rs:951-957`: a synchronised deletion removes whatever version is stored locally but marks
       the day of the version named in the record -/
   syncDeletionLocalDayUnmarked : Bool
-  /-- #18 `node.rs:469-574`: ingestion never consults the deletion log -/
+  /-- #18 `node.rs:469-574`: ingestion never consulted the deletion log (repaired: `synchronise_day` filters the
+      announced ids through `Node::filter_existing_in_room`, which drops those that carry a deletion record in the
+      synchronised room) -/
   ingestIgnoresTombstones : Bool
   /-- #19 `authorisation_service.rs:1139-1145`: the right required of an incoming version depends on
       the author of the version stored locally -/
@@ -50,7 +52,9 @@ structure Defects where
   /-- `node.rs:946-961` vs `deletion.rs:110-114`: a synchronised deletion leaves the references from and
       to the row in place (a local deletion removes them) -/
   syncDeletionKeepsEdges : Bool
-  /-- `node.rs:913-944`: deletion records of one batch are keyed by row id, two records of one row collapse -/
+  /-- `node.rs:913-944`: deletion records of one message are keyed by row id, two records of one row collapsed
+      (repaired: `GraphDatabaseService::delete_nodes` sends the records of an answer in sub-batches in which every
+      row id occurs once) -/
   deletionBatchKeyedById : Bool
   /-- `daily_log.rs:170-268`: the `SELECT` of `compute` is stepped row by row while the loop body updates the
       same table, so its `WHERE` sees the loop's own updates (SQLite 3.45 `WITHOUT ROWID` scan): an unmarked
@@ -75,9 +79,9 @@ deriving Repr, DecidableEq
 def Defects.asImplemented : Defects :=
   { historySeedDropped := false, entityNotCompared := false, emptyDayRow := false, oldDayUnmarked := false,
     refDeletionUnmarked := false, refDeletionTouchesRowWithoutRef := false,
-    syncDeletionLocalDayUnmarked := false, ingestIgnoresTombstones := true,
+    syncDeletionLocalDayUnmarked := false, ingestIgnoresTombstones := false,
     rightDependsOnLocalAuthor := true, edgesOnlyForFetchedRows := true, syncDeletionKeepsEdges := true,
-    deletionBatchKeyedById := true, lazyScan := false,
+    deletionBatchKeyedById := false, lazyScan := false,
     syncDeletionRoomScoped := true, summaryFirstEntityOnly := true }
 
 /-- the code before the three repairs of #20 (`findings/C09-1-seed-row-loaded.patch`, `C09-2-entity-compared.patch`,
